@@ -22,6 +22,9 @@
 //! record, before or after the cursive lookup. Reference = attachment kept, placement added (HarfBuzz); allsorts'
 //! documented behaviour is deviation switch 12 of the reference model.
 //!
+//! Family 'pairskip' (see `pairskip_programs`): PairPos with every glyph covered as first and as second glyph under every
+//! lookup flag setting, strings of length 4 already in the quick tier: an excluded glyph must never become a pair member.
+//!
 //! A mismatch is attributed to a precise key only if the observed output equals the reference run with
 //! the corresponding deviation switch(es); everything else is "C05:mismatch:<kind>".
 
@@ -127,6 +130,7 @@ enum Kind {
     Combo,
     MarkAdjust,
     CursiveAdjust,
+    PairSkip,
     Overflow,
 }
 
@@ -143,6 +147,7 @@ impl Kind {
             Kind::Combo => "combo",
             Kind::MarkAdjust => "markadjust",
             Kind::CursiveAdjust => "cursiveadjust",
+            Kind::PairSkip => "pairskip",
             Kind::Overflow => "overflow",
         }
     }
@@ -152,7 +157,7 @@ impl Kind {
     /// longer candidates, so a return of that behaviour is reported as a plain mismatch.
     fn cands(&self) -> &'static [usize] {
         match self {
-            Kind::Single | Kind::Pair | Kind::Context | Kind::Combo | Kind::MarkAdjust | Kind::Overflow => &[],
+            Kind::Single | Kind::Pair | Kind::PairSkip | Kind::Context | Kind::Combo | Kind::MarkAdjust | Kind::Overflow => &[],
             // 11 = anchor format 3 variation deltas ignored: the only GPOS deviation still recorded as a known finding
             Kind::Cursive | Kind::MarkBase | Kind::MarkLig | Kind::MarkMark => &[11],
             // 12 = Info cannot hold a cursive link and a placement on one glyph (known finding)
@@ -504,6 +509,7 @@ fn catalogue(thorough: bool) -> Vec<Prog> {
     combo_programs(&mut v);
     markadjust_programs(&mut v);
     cursiveadjust_programs(&mut v);
+    pairskip_programs(&mut v);
     let _ = thorough;
     v
 }
@@ -874,6 +880,37 @@ fn cursiveadjust_programs(v: &mut Vec<Prog>) {
                 vec![(T_DIST, vec![0]), (T_CURS, vec![1]), (T_LATE, vec![2])],
                 vec![s(92, vf), lk((IGNORE_MARKS | rtl, 0), vec![cursive(0x3F)]), s(131, vf ^ 0x3)],
             ));
+        }
+    }
+}
+
+/// (valueFormat1, valueFormat2) of the 'pairskip' programs: second record absent (the second glyph starts the next pair)
+/// and present (the next pair starts at the next glyph the lookup flags select)
+const VF_PAIRSKIP: [(u16, u16); 6] = [(0x4, 0), (0x1, 0), (0x4, 0x4), (0, 0x4), (0x5, 0x1), (0x4, 0x3)];
+
+/// Where does the next pair start? PairPos 1 / 2 whose coverage and pair sets / class matrix contain EVERY glyph of the
+/// alphabet as first and as second glyph (so a glyph that the lookup flags exclude would be adjusted if the walk ever
+/// made it a pair member) x the 8 lookup flag settings x VF_PAIRSKIP. Run on all strings up to length 4 (quick) / 5
+/// (thorough): ignored glyphs before, between and after the members of one or two pairs.
+fn pairskip_programs(v: &mut Vec<Prog>) {
+    let all = vec![A, B, L, M1, M2];
+    for (fmt1, fmt2) in VF_PAIRSKIP {
+        let sets: Vec<Vec<(G, Value, Value)>> = (0..5).map(|r| (0..5).map(|c| (all[c], val(140 + 2 * (5 * r + c)), val(141 + 2 * (5 * r + c)))).collect()).collect();
+        let p1 = Subtable::Pair1 { cov: all.clone(), fmt1, fmt2, sets };
+        let p2 = Subtable::Pair2 {
+            cov: all.clone(),
+            fmt1,
+            fmt2,
+            class1: vec![(A, 1), (L, 2), (M1, 3)],
+            class2: vec![(B, 1), (L, 2), (M2, 3)],
+            matrix: (0..4).map(|r| (0..4).map(|c| (val(190 + 2 * (4 * r + c)), val(191 + 2 * (4 * r + c)))).collect()).collect(),
+        };
+        for f in FLAGS8 {
+            for (n, s) in [("pair1", &p1), ("pair2", &p2)] {
+                let mut p = prog(format!("pairskip {} all-glyphs-covered vf1={:#x} vf2={:#x} {}", n, fmt1, fmt2, flag_name(f)), Kind::PairSkip, T_KERN, vec![lk(f, vec![s.clone()])]);
+                p.maxlen = (4, 5);
+                v.push(p);
+            }
         }
     }
 }
@@ -1511,7 +1548,7 @@ fn run_prog(ctx: &Ctx, p: &Prog, thorough: bool, all_strings: &[Vec<G>]) -> Acc 
     // context/combo programs; at most one non-default encoding choice. thorough: the design bounds.
     let maxlen = if thorough {
         p.maxlen.1
-    } else if matches!(p.kind, Kind::Context | Kind::Combo | Kind::MarkAdjust | Kind::CursiveAdjust | Kind::Overflow) {
+    } else if matches!(p.kind, Kind::Context | Kind::Combo | Kind::MarkAdjust | Kind::CursiveAdjust | Kind::PairSkip | Kind::Overflow) {
         p.maxlen.0
     } else {
         p.maxlen.0.min(3)
@@ -2050,7 +2087,10 @@ pub fn run(ctx: &Ctx) {
          on {a}, SinglePos 1 and 2 on {a,b,L}, PairPos 1 value record 1, PairPos 1 value record 2, PairPos 2 both records) x 5 value \
          formats x (cursive then adjust | adjust then cursive), two features (one feature for the formats 0x3 and 0x7; a chain \
          a -> b -> L only for SinglePos 2 and PairPos value record 1), plus adjusted before and after the cursive lookup; the \
-         strings put the adjusted glyph first, in the middle and last in chains of 2 to 4 (quick) / 5 (thorough) glyphs. kern: every table of the catalogue x every string through KernTable + \
+         strings put the adjusted glyph first, in the middle and last in chains of 2 to 4 (quick) / 5 (thorough) glyphs. Family \
+         'pairskip': PairPos 1 / 2 with every glyph of the alphabet covered as first and as second glyph x 8 lookup flag settings x \
+         6 (valueFormat1, valueFormat2) with valueFormat2 zero / non-zero, on all strings up to length 4 (quick) / 5 (thorough): \
+         where the next pair starts when ignored glyphs sit before, between and after pair members. kern: every table of the catalogue x every string through KernTable + \
          apply_fallback, selected tables through Font::shape with/without GPOS. A case is non-trivial when the reference \
          positioner produced a non-zero adjustment or an attachment (counted per (program, string, components, tuple, direction)) \
          or the kern reference produced a non-zero kerning; outcomes are distinct (Info values, absolute origins) results.",
@@ -2065,6 +2105,7 @@ pub fn run(ctx: &Ctx) {
     ctx.assume("a glyph of a cursive chain that is also adjusted by a value record (family 'cursiveadjust'): the reference keeps the attachment and adds the placement to the glyph (HarfBuzz: attach_type / attach_chain stay, x_offset / y_offset += placement; a placement made before the cursive lookup enters x_advance = exit_x + x_offset), whichever lookup comes first. gpos::Info cannot hold a link and a placement on one glyph; allsorts' behaviour (Placement::combine_distance replaces CursiveAnchor by Distance, cursivepos overwrites an earlier Distance on the first glyph of the pair) is attributed to C05:cursive:later-or-earlier-placement-on-linked-glyph-lost only when the observed Info values equal the reference run with exactly that switch, anything else is C05:mismatch:info-cursiveadjust");
     ctx.assume("pen positions of a cursively attached glyph that carries a placement of its own (only the last glyph of a chain can, in Info): Info does not record whether the placement was made before or after the attachment, so both HarfBuzz outcomes are accepted: anchors coincide (placement before: folded into the advances, cross-stream offset assigned) and glyph moved off the aligned position by the placement (placement after); the known cursive layout switches are tried under both readings, their algorithms are unchanged");
     ctx.assume("programs of kind 'markadjust' that use two features list the lookups in the order in which the features are applied (attachment in mark/mkmk then adjustment in the non-default feature ss01, or adjustment in dist then attachment in mark/mkmk), so that applying lookups in LookupList order over all features (specification, HarfBuzz) and feature by feature (allsorts) give the same sequence");
+    ctx.assume("PairPos walk: pairs are formed between consecutive glyphs that the lookup flags select; when valueFormat2 is non-zero the second glyph is consumed and the next pair starts at the next SELECTED glyph after it, when valueFormat2 is zero the second glyph is the first glyph of the next pair; a glyph the flags exclude is never a pair member (OpenType 'Lookup Type 2', lookupFlag; HarfBuzz PairPos::apply with skippy_iter)");
     ctx.assume("kern 'minimum' subtables: the specification only says the table 'has minimum values'; raising the accumulated value to the minimum, not using such subtables, and lowering the accumulated value are all accepted");
     ctx.assume("a kern table is not applied when GPOS has a 'kern' feature, nor when Font::shape is called with kerning=false on a font with GPOS");
     ctx.assume("variation deltas are chosen so that every interpolated delta is an integer (no rounding rule is tested)");
@@ -2096,7 +2137,7 @@ pub fn run(ctx: &Ctx) {
         json!({
             "gpos_programs": progs.len(), "gpos_programs_by_kind": by_kind, "gsub_ligature_programs": nlig, "kern_tables": nkern,
             "encodings_per_program": if thorough { 7 } else { 4 }, "encoding_deviation_bound": if thorough { 2 } else { 1 }, "alphabet": ["a", "b", "L", "m1", "m2"],
-            "max_string_length": {"pair": if thorough { 4 } else { 3 }, "marklig": if thorough { 4 } else { 3 }, "context_combo": if thorough { 5 } else { 4 }, "markadjust": if thorough { 5 } else { 4 }, "cursiveadjust": if thorough { 5 } else { 4 }, "markadjust_devices": if thorough { 4 } else { 3 }, "others": if thorough { 5 } else { 3 },
+            "max_string_length": {"pair": if thorough { 4 } else { 3 }, "marklig": if thorough { 4 } else { 3 }, "context_combo": if thorough { 5 } else { 4 }, "markadjust": if thorough { 5 } else { 4 }, "cursiveadjust": if thorough { 5 } else { 4 }, "pairskip": if thorough { 5 } else { 4 }, "markadjust_devices": if thorough { 4 } else { 3 }, "others": if thorough { 5 } else { 3 },
                                    "gsub_ligature": if thorough { 5 } else { 4 }, "kern_apply_fallback": if thorough { 3 } else { 2 }, "kern_shape": 3},
             "markadjust": {"attachments": ["MarkBasePos", "MarkLigPos", "MarkMarkPos"], "adjusters_per_value_format": 10, "value_formats": VF_ADJ.iter().map(|f| format!("{:#x}", f)).collect::<Vec<_>>(),
                            "orders": ["attach,adjust", "adjust,attach"], "feature_arrangements": ["one-feature", "two-features"], "programs": n_markadjust},
